@@ -259,6 +259,12 @@ SUITES = {"exhaustive_graphs": suite_exhaustive, "random_graphs": suite_random,
           "transcription_velocity.scores": _TR.SUITES["transcription_velocity.scores"],
           # multipitch per-frame true positives (raw and chroma-wrapped windows)
           "multipitch.num_true_positives": _MP.SUITES["mp_num_true_positives"]}
+# stream F: hit graphs / note sets / multi-f0 frames derived from the repository's fixture files
+from suites import fixtures as _FX  # noqa: E402
+for _k in ("matching", "transcription", "transcription_velocity", "multipitch"):
+    if _k in _FX.SUITES:
+        SUITES["fixtures." + _k] = _FX.SUITES[_k]
+RULE += "; " + _FX.RULE_NOTE
 
 
 # ---------------------------------------------------------------------------------------------
@@ -484,7 +490,11 @@ ORACLES = {"util._bipartite_match": gen_bipartite, "util.match_events": gen_matc
 
 def classify(suite, d):
     i = d.get("info") or {}
-    if suite.startswith("transcription"):
+    if suite == "fixtures.matching":
+        if "adj" in i:
+            return "util._bipartite_match", {"adj": i["adj"]}
+        return "util.match_events", {"ref": i["ref"], "est": i["est"], "window": i["window"]}
+    if suite.startswith("transcription") or suite.startswith("fixtures.transcription"):
         from props import t_transcription
         return t_transcription.classify(suite, d)
     if suite in ("exhaustive_graphs", "random_graphs") or suite.startswith("hk."):
